@@ -56,6 +56,7 @@ type FuncContract struct {
 	deadCount int
 	ignore    []string // callees whose contracts are not used in this body
 	only      []string // if non-empty: the only callees whose contracts are used in this body
+	theories  []string // built-in theories switched on for this body ("numerals")
 	dbonly    []string // callees assumed to change only database buckets and Go maps (results arbitrary)
 	cbObserves map[string]string // callback <param> observes <ghost>
 	asserts   map[ast.Stmt][]*Clause // at "<stmt>" assert P
@@ -359,6 +360,10 @@ func installUniverse() {
 	mk("ghosts", []types.Type{types.Typ[types.String], types.NewSlice(anyT)}, types.Typ[types.String], true)
 	mk("sbyteAt", []types.Type{anyT, intT}, types.Typ[types.Byte], false)
 	mk("has", []types.Type{anyT, anyT}, boolT, false)
+	// theory of decimal numerals over strings (see numeral.go)
+	mk("decval", []types.Type{types.Typ[types.String]}, intT, false) // value of the byte string read as a base-10 numeral (Horner over byte-48)
+	mk("alldigits", []types.Type{types.Typ[types.String]}, boolT, false) // every byte is an ASCII digit
+	mk("pow10", []types.Type{intT}, intT, false)
 	mk("gmap", []types.Type{types.Typ[types.String], types.NewSlice(anyT)}, types.NewMap(types.Typ[types.String], types.Typ[types.String]), true)
 }
 
@@ -367,7 +372,7 @@ func installUniverse() {
 
 var clauseKinds = map[string]bool{"guard": true, "callback": true, "step": true, "requires": true, "ensures": true, "invariant": true, "decreases": true,
 	"modifies": true, "props": true, "trusted": true, "pure": true, "inline": true, "unroll": true, "lemma": true,
-	"assume": true, "nopanic": true, "dead": true, "expand": true, "ignore": true, "only": true, "assert": true, "heapframe": true, "skip": true, "dbonly": true}
+	"assume": true, "nopanic": true, "dead": true, "expand": true, "ignore": true, "only": true, "assert": true, "heapframe": true, "skip": true, "dbonly": true, "theory": true}
 
 var headRe = regexp.MustCompile(`^func\s+(.+)$`)
 var scopeRe = regexp.MustCompile(`^(loop|closure|if)#(\d+)\s+(.*)$`)
@@ -1356,6 +1361,9 @@ func (p *Program) fillContract(fc *FuncContract, clauses []*rawClause, body *ast
 			// only <func>...: in this body, contracts are used only for these callees; every other call with a
 			// contract is treated as a call without one (lemma-level contracts on large functions)
 			fc.only = append(fc.only, strings.Fields(rc.text)...)
+		case "theory":
+			// theory numerals: the generator's lemmas about decimal numerals are added at string operations of this body
+			fc.theories = append(fc.theories, strings.Fields(rc.text)...)
 		case "dbonly":
 			// dbonly <func>...: in this body these callees are assumed to change nothing but database buckets and Go
 			// maps (no object in memory); results arbitrary, no precondition proved, nothing of their postcondition used
